@@ -157,8 +157,10 @@ func (r *Registry) closure(texts []string) []string {
 		}
 	}
 	var out []string
+	dup := map[string]bool{}
 	for _, e := range r.order {
-		if need[e.name] {
+		if need[e.name] && !dup[e.text] {
+			dup[e.text] = true
 			out = append(out, e.text)
 		}
 	}
